@@ -124,7 +124,7 @@ fn judge_family(sp: &Spec, call: Call, levels: &[f64], descr: &dyn Fn() -> Strin
                     one.to_bits() == two.to_bits() || one == two
                 } else {
                     let h = (thi - tlo).abs() * 0.5;
-                    one == two || (one - two).abs() <= 4.0 * sp.u * one.abs().max(two.abs()) + (1e-13 + sp.crit_noise) * h
+                    one == two || (one.is_finite() && two.is_finite()) && (one - two).abs() <= 4.0 * sp.u * one.abs().max(two.abs()) + (1e-13 + sp.crit_noise) * h
                 };
                 if dyadic {
                     s.count("dyadic-exact-coincidence-checks", 1);
